@@ -103,6 +103,7 @@ def renderRun (r : Except Err Unit × St) : String :=
     | .ok _ => "ok:void"
     | .error .transferType => "internal:go:ValueTransferTypeError"
     | .error .argCount => "user:go:arg-count"
+    | .error .forceNil => "user:force-nil"
     | .error (.internal w) => "model-internal:" ++ w
   let logs := r.2.tr.filterMap fun | .log s => some s | _ => none
   let evs := r.2.tr.filterMap fun | .event e => some e.render | _ => none
